@@ -159,13 +159,14 @@ Definition prepare_temp (sch : schedule) : st -> res unit :=
   bind (atomic_op sch OStat (fun s => match fs_target (s_fs s) with
                                       | Some f => Some (f_mode f, s) | None => None end))
   (fun mode =>
+  (* owner first, then mode (a chown clears setuid / setgid); chown_linux.go: a failing chown is
+     logged and ignored; ownership is not modelled *)
+  hook sch HChownTemp ;;
+  ignore_err (atomic_op sch OChown noeff) ;;
   hook sch HChmodTemp ;;
   atomic_op sch OChmod (fun s => match fs_temp (s_fs s) with
                                  | Some f => Some (tt, set_temp (Some (mkFile (f_bytes f) mode)) s)
-                                 | None => None end) ;;
-  hook sch HChownTemp ;;
-  (* chown_linux.go: a failing chown is logged and ignored; ownership is not modelled *)
-  ignore_err (atomic_op sch OChown noeff)).
+                                 | None => None end)).
 
 Definition CreateTempFile (sch : schedule) : st -> res unit :=
   hook sch HCreateTemp ;;
